@@ -794,7 +794,7 @@ pub fn supervise(check: &dyn Check, a: SupArgs) -> SupResult {
     }
     if a.write_evidence && exit != 2 {
         let mut fired = serde_json::Map::new();
-        for k in [K::ShortWrite, K::ShortRead, K::EintrWrite, K::EintrRead, K::EioWrite, K::EnospcWrite, K::EioRead, K::FlushErr, K::CreateErr, K::OpenErr, K::ChunkedWrite, K::ChunkedRead, K::EofRead] {
+        for k in [K::ShortWrite, K::ShortRead, K::EintrWrite, K::EintrRead, K::EioWrite, K::EnospcWrite, K::EioRead, K::FlushErr, K::CreateErr, K::OpenErr, K::ChunkedWrite, K::ChunkedRead, K::EofRead, K::WouldBlockWrite, K::WouldBlockRead, K::TimedOutRead, K::ZeroWrite] {
             fired.insert(K_NAMES[k as usize].to_string(), json!(stats.get(k)));
         }
         let ev = json!({
